@@ -51,7 +51,7 @@ def make_case(rng: random.Random, index: int) -> Dict[str, Any]:
     if index % 5 == 0:
         hists = shaped_input(rng, "fully-sold+income-only")
     else:
-        hists = cli_histories(rng, rng.randint(1, 3), cli_profile(n_exchanges=rng.choice((2, 3)), n_holders=2, p_intra=0.3, max_events=rng.choice((8, 16)), min_events=4, price_style="small"))
+        hists = cli_histories(rng, rng.randint(1, 3), cli_profile(n_exchanges=rng.choice((2, 3)), n_holders=2, p_intra=0.3, max_events=rng.choice((8, 16)), min_events=4, price_style="small", mixed_tz=rng.random() < 0.35))
     country = rng.choice(("us", "us", "generic", "es", "ie", "jp"))
     language = rng.choice(COUNTRY_LANGUAGES[country])
     method = rng.choice(COUNTRY_METHODS[country])
